@@ -158,9 +158,9 @@ Proof.
   - repeat match goal with |- safe (if ?c then _ else _) => destruct c | |- safe (Ok _) => apply safe_ok end.
 Qed.
 
-Lemma srv_ipcp_safe count p : safe (srv_ipcp count p).
+Lemma srv_ipcp_safe authed count p : safe (srv_ipcp authed count p).
 Proof.
-  unfold srv_ipcp. pose proof (parse_lcp_packet_safe p) as [H1 H2].
+  unfold srv_ipcp. destruct (authed =? 0); [apply safe_ok|]. pose proof (parse_lcp_packet_safe p) as [H1 H2].
   destruct (parse_lcp_packet p) as [[[[c i] l] data]| | |]; try congruence; [|apply safe_ok].
   destruct (c =? 1); [|apply safe_ok].
   pose proof (parse_lcp_options_safe data) as [H3 H4].
@@ -170,7 +170,7 @@ Qed.
 Lemma srv_pap_safe count p : safe (srv_pap count p).
 Proof. unfold srv_pap. safe_go. Qed.
 
-Lemma handle_session_safe sid d tail : safe (handle_session sid d tail).
+Lemma handle_session_safe sid au d tail : safe (handle_session sid au d tail).
 Proof.
   unfold handle_session.
   destruct (lenN d <? 8) eqn:E0; [apply safe_ok|].
@@ -198,7 +198,7 @@ Proof.
   rewrite (sub_tail_irrel d tail 6 (6 + l)) by lia. reflexivity.
 Qed.
 
-Lemma handle_session_no_overread sid d tail : handle_session sid d tail = handle_session sid d [].
+Lemma handle_session_no_overread sid au d tail : handle_session sid au d tail = handle_session sid au d [].
 Proof.
   unfold handle_session.
   destruct (lenN d <? 8) eqn:E; [reflexivity|].
